@@ -87,3 +87,95 @@ fn c09_multicast_leave_then_join() {
     kani::cover!(!m[0][0] && m[1][0], "left one group, joined another");
 }
 }
+
+// C09 "carries the sender's payload unaltered, cut only to the receive buffer length":
+// `UdpSocket::try_recv_from` (and `Rx::try_recv_from` with a datagram parked by `readable`) on a
+// 3-byte datagram with symbolic contents and symbolic origin; the receive buffer length is concrete
+// per instance. The call returns min(3, B) bytes, those bytes are the datagram's prefix, the rest of
+// the buffer is untouched, the origin is the sender, the datagram is consumed exactly once and the
+// next datagram is not disturbed.
+fn truncation<const B: usize>(parked: bool) -> usize {
+    let (tx, rx) = mpsc::channel::<(Datagram, SocketAddr)>(2);
+    let payload: [u8; 3] = kani::any();
+    let next: [u8; 1] = kani::any();
+    let src = SocketAddr::new(IpAddr::V4(Ipv4Addr::new(kani::any(), kani::any(), kani::any(), kani::any())), kani::any());
+    let src2 = SocketAddr::new(IpAddr::V4(Ipv4Addr::new(10, 0, 0, 9)), 99);
+    let sock = UdpSocket::new(M1, rx);
+    if parked {
+        // what `readable()` does: the first datagram is taken out of the channel and parked
+        let mut g = match sock.rx.try_lock() {
+            Ok(g) => g,
+            Err(_) => panic!("uncontended"),
+        };
+        g.buffer = Some((Datagram(Bytes::copy_from_slice(&payload)), src));
+        drop(g);
+    } else {
+        assert!(tx.try_send((Datagram(Bytes::copy_from_slice(&payload)), src)).is_ok());
+    }
+    assert!(tx.try_send((Datagram(Bytes::copy_from_slice(&next)), src2)).is_ok());
+    let mut buf = [0xAAu8; B];
+    let r = sock.try_recv_from(&mut buf);
+    let n = match &r {
+        Ok((n, from)) => {
+            assert!(*from == src, "origin is the sending socket");
+            *n
+        }
+        Err(_) => panic!("a datagram is queued"),
+    };
+    std::mem::forget(r);
+    assert!(n == if B < 3 { B } else { 3 }, "cut only to the receive buffer length");
+    let mut i = 0;
+    while i < B {
+        if i < n {
+            assert!(buf[i] == payload[i], "payload unaltered");
+        } else {
+            assert!(buf[i] == 0xAA, "nothing beyond the datagram is written");
+        }
+        i += 1;
+    }
+    // the next datagram is whole and comes next; then the queue is empty (no duplicate of the first)
+    let mut b2 = [0u8; 4];
+    let r2 = sock.try_recv_from(&mut b2);
+    match &r2 {
+        Ok((n2, from2)) => assert!(*n2 == 1 && b2[0] == next[0] && *from2 == src2),
+        Err(_) => panic!("second datagram must still be there"),
+    }
+    std::mem::forget(r2);
+    let r3 = sock.try_recv_from(&mut b2);
+    match &r3 {
+        Ok(_) => panic!("each datagram is received at most once"),
+        Err(e) => assert!(e.kind() == io::ErrorKind::WouldBlock),
+    }
+    std::mem::forget(r3);
+    std::mem::forget(sock);
+    std::mem::forget(tx);
+    n
+}
+// @verif id=C09 tier=quick role=udp_truncation timeout=900 desc=buffer=2<datagram=3
+crate::verif_proof! { unwind = 6;
+fn c09_udp_recv_cuts_to_buffer_length() {
+    let n = truncation::<2>(false);
+    kani::cover!(n == 2, "truncated");
+}
+}
+// @verif id=C09 tier=quick role=udp_truncation timeout=900 desc=buffer=4>datagram=3,parked-by-readable
+crate::verif_proof! { unwind = 6;
+fn c09_udp_recv_after_readable_returns_whole_datagram() {
+    let n = truncation::<4>(true);
+    kani::cover!(n == 3, "whole datagram");
+}
+}
+// @verif id=C09 tier=thorough role=udp_truncation timeout=900 desc=buffer=0
+crate::verif_proof! { unwind = 6;
+fn c09_udp_recv_into_empty_buffer_consumes_the_datagram() {
+    let n = truncation::<0>(false);
+    kani::cover!(n == 0, "nothing copied");
+}
+}
+// @verif id=C09 tier=thorough role=udp_truncation timeout=900 desc=buffer=3==datagram
+crate::verif_proof! { unwind = 6;
+fn c09_udp_recv_exact_fit() {
+    let n = truncation::<3>(true);
+    kani::cover!(n == 3, "exact fit");
+}
+}
